@@ -6,8 +6,14 @@ import (
 	"strings"
 )
 
+// DumpHook lets other packages add debugging views.
+var DumpHook func(p *Prog, what string) bool
+
 // Dump prints debugging views.
 func Dump(p *Prog, what string) {
+	if DumpHook != nil && DumpHook(p, what) {
+		return
+	}
 	switch {
 	case what == "routes":
 		rs, err := p.Routes()
